@@ -9,7 +9,8 @@ def gen_consts(v):
     return v.gen_consts_cpp(ID, ['ola/web/JsonLexer.h'], [('MAX_DEPTH', 'ola::web::JsonLexer::MAX_DEPTH')],
                             os.path.join(v.VERIF, 'props', ID, 'coq', 'Gen.v'))
 
-SPEC_KEYS = (['valid', 'toks', 'str', 'rt', 'back', 'pre', 'eq', 'ok', 'tree', 'w', 'same', 'all', 'dall', 'chk']
+SPEC_KEYS = (['valid', 'toks', 'str', 'rt', 'back', 'pre', 'eq', 'ok', 'tree', 'w', 'same', 'all', 'dall', 'chk', 'fresh']
+             + ['p%d' % i for i in range(16)]
              + ['r%d' % i for i in range(16)] + ['d%d' % i for i in range(16)])
 INTERNAL_KEYS = []          # 'err' (message text) and 'wl' are compared but are not property-determined
 
@@ -17,7 +18,8 @@ RULE = ('pointer token lists over {~ / 0 1 a "" ~0 ~1 ~01 ...} (all lists up to 
         'pointer strings; documents = generated trees rendered with random whitespace, number/escape boundary '
         'texts (2^31, 2^32, 2^63, 2^64 +-1, leading zeros, lone signs, every escape), doubles with 1-20 digit exponents of '
         'both signs / int32- and uint64-wrap exponents / long digit strings / leading fractional zeros under a 4 s '
-        'per-case watchdog, mutated documents, random '
+        'per-case watchdog, an exact-length sweep (every document size 1..4200 and 2^k-1..2^k+1 up to 65537), sequences of '
+        'texts through ONE long-lived JsonParser (failing inside open containers at every depth, then valid), mutated documents, random '
         'bytes, NUL, nesting ladders around MAX_DEPTH and up to 64 KiB; API-built trees to depth 8; patch programs '
         'of 1-8 ops on generated documents with paths aimed at existing members, indices len-1/len/len+1, "-", '
         'non-canonical indices and keys containing / and ~.  non-trivial = pointer valid / text accepted / tree '
@@ -346,6 +348,38 @@ def gen_cases(rng, tier):
             if kind != 'a' and n > 13000: continue
             for close in (0, 1):
                 yield 'deep %s %d %d' % (kind, n, close)
+    # exact-length sweep: documents of every size (buffer-size boundaries inside the lexer)
+    kinds = 'saw'
+    for n in range(1, 4201):
+        if quick and not (1000 <= n <= 1050):
+            yield 'len %s %d' % (kinds[n % 3], n)
+        else:
+            for k in kinds: yield 'len %s %d' % (k, n)
+    for e in range(5, 17):
+        for n in ((1 << e) - 1, 1 << e, (1 << e) + 1):
+            for k in kinds: yield 'len %s %d' % (k, n)
+    # one long-lived JsonParser object for a sequence of texts
+    OPEN_FAIL = ['[1, 2', '[', '{"k": [1, {"x": ', '{"a": 1, ', '[[[[', '[1, [2, {"q": "unterminated', '{"k": tru', '[1 2',
+                 '{"a" 1}', '[1, ]', '{"k": [1, 2}', '[' * 256 + ']' * 10, '[' * 257, '[{"a": [' * 40, '["\\q"]']
+    TOP_FAIL = ['', 'tru', '1 2', '-', '"abc', ']', 'x', '1e']
+    VALID = ['[3]', '{"k": 1}', '1', '"s"', 'null', '[]', '{}', '[[1, 2], {"a": [true, null]}]', '{"a": {"b": {"c": [1]}}}',
+             '[' * 200 + ']' * 200]
+    for _ in range(250 if quick else 8000):
+        ts = []
+        for _ in range(rng.randrange(2, 9)):
+            r = rng.random()
+            if r < 0.4: t = rng.choice(OPEN_FAIL)
+            elif r < 0.5: t = rng.choice(TOP_FAIL)
+            elif r < 0.6:
+                d = rng.choice([1, 2, 3, 5, 17, 100, 255, 256])
+                t = ''.join(rng.choice(['[', '{"k": ', '[1, ']) for _ in range(d)).replace('{"k": ', '{"k": ')
+            elif r < 0.9: t = rng.choice(VALID)
+            else: t = render(rng, tree_to_py(rand_tree(rng, 3)))
+            ts.append(t)
+        yield 'seq ' + ','.join(hx(t.encode('latin-1')) for t in ts)
+    for a in OPEN_FAIL:
+        for b in VALID[:4]:
+            yield 'seq %s,%s,%s' % (hx(a), hx(b), hx(a))
     # API-built trees
     for _ in range(500 if quick else 30000):
         pr = rng.random() < 0.9
@@ -361,7 +395,8 @@ def nontrivial(payload, md):
     op = payload.split(' ', 1)[0]
     if op in ('ptr', 'ptrt'): return md.get('valid') == '1' and md.get('rt') == '1'
     if op == 'pre': return md.get('pre') == '1'
-    if op in ('parse', 'deep'): return md.get('ok') == '1'
+    if op in ('parse', 'deep', 'len'): return md.get('ok') == '1'
+    if op == 'seq': return any(v.startswith('ok:') for k, v in md.items() if k[0] == 'p') and any(v.startswith('err:') for k, v in md.items() if k[0] == 'p')
     if op == 'tree': return md.get('ok') == '1' and md.get('eq') == '1'
     if op == 'patch':
         doc = payload.split(' ')[1]
